@@ -1,5 +1,6 @@
 import Sentinel.Lemmas.FlowReject
 import Sentinel.Lemmas.FlowRejectConc
+import Sentinel.Lemmas.FlowRejectG
 /-!
 # C02 — a reject-mode QPS flow rule admits exactly up to the threshold per statistic window
 (property theorems only; the refinement lemmas live in `Sentinel/Lemmas/FlowReject.lean`)
@@ -267,7 +268,7 @@ theorem chain_model_eq_ref {α β : Type} (A : ChainOps α) (B : ChainOps β) (R
     (hrule : ∀ a b, R a b → A.rule a = B.rule b ∧ A.idx a = B.idx b ∧ A.last a = B.last b)
     (hset : ∀ a b l, R a b → R (A.setLast a l) (B.setLast b l))
     (res bt : Nat) (as : List α) (bs : List β) (hR : List.Forall₂ R as bs) (t : Nat)
-    (hblk : ∀ a b, R a b → ∀ ms, t / nsPerMs ≤ ms → A.blocks a ms bt = B.blocks b ms bt) :
+    (hblk : ∀ a b, R a b → (B.rule b).kind = .reject → ∀ ms, t / nsPerMs ≤ ms → A.blocks a ms bt = B.blocks b ms bt) :
     (chainG A res bt as t).2 = (chainG B res bt bs t).2 ∧
     List.Forall₂ R (chainG A res bt as t).1 (chainG B res bt bs t).1 :=
   chainG_rel A B R hrule hset res bt as bs hR t hblk
@@ -283,6 +284,113 @@ theorem throttle_then_reject_sample :
     let x4 := entryG x3.1 1 x3.2.1 1
     (x1.2.2, x2.2.2, x3.2.2, x4.2.2) = (none, none, none, some 1) ∧ x4.2.1 = t0 + 3 * 976563 := by
   decide
+
+/-! ## every op history of the executed definitions (throttling rules, sleeps, reloads)
+
+`runOps m ops` is what the driver executes for `clock` / `load` / `entry` lines (`stepOp`): the ns clock that never
+goes backwards, `reloadG` (first load and every reload, with the reuse order of `buildResourceTrafficShapingController`),
+`entryG` (chain walk with throttling controllers and sleeps, then the statistic slots at the advanced time).
+`refRunOps` is the array-free reference: rules in force with their `since` offsets and `lastPassedTime`s, and the
+admitted history. -/
+
+/-- **`runG_eq_ref`** — for every starting instant `t0 ≥ 1 ms` and **every** op history (loads and reloads of rule
+lists mixing reject and throttling rules, valid or not; clock moves; entries), the observations of the executed
+model over the leap arrays — controller counts after each load, every decision with the id of the blocking rule,
+and the time slept inside the flow slot — are exactly those of the reference, whose windows are recomputed from
+the admitted history. (Reloads: a kept window keeps its leap-array invariant, a fresh one starts empty at the
+reload time; throttling: both sides run C10's `Throttle.doCheck` on equal `lastPassedTime`s, `chain_model_eq_ref`.) -/
+theorem runG_eq_ref (t0 : Nat) (h0 : 0 < t0 / nsPerMs) (ops : List Op) :
+    (runOps { t := t0 } ops).2 = (refRunOps RuleInfo.feed { t := t0 } ops).2 :=
+  (runOps_eq_ref (RepM.init t0 h0) ops).1
+
+/-- **`admit_iff_executed_full`, full statement**: the same for the reference in which every rule counts the
+resource the property names. False on the pinned tree for the same reason as `admit_iff_statement`. -/
+def admit_iff_executed_full_statement : Prop :=
+  ∀ (t0 : Nat), 0 < t0 / nsPerMs → ∀ (ops : List Op) (res b : Nat),
+    let m := (runOps { t := t0 } ops).1
+    let rm := (refRunOps RuleInfo.feed { t := t0 } ops).1
+    ((entryG m.s res m.t b).2.2 = none ↔ Admits demanded rm.r.H res b rm.r.ctrls rm.t)
+
+/-- **`admit_iff_executed_full`** (`_partial`: hypothesis = no rule *in force* lies in the region of the known finding
+`assoc-standalone-own-traffic`): after any op history, a request `(res, b)` is admitted **iff** `Admits` holds — every
+reject rule in force on `res` has room for `b` in its aligned window (recomputed from the admitted history) at the
+moment it is asked, i.e. at the time advanced by the sleeps of the throttling rules before it, and no throttling
+rule on the way rejects. -/
+theorem admit_iff_executed_full_partial (t0 : Nat) (h0 : 0 < t0 / nsPerMs) (ops : List Op) (res b : Nat)
+    (hreg : ∀ c ∈ (refRunOps RuleInfo.feed { t := t0 } ops).1.r.ctrls, c.info.inFinding = false) :
+    ((entryG (runOps { t := t0 } ops).1.s res (runOps { t := t0 } ops).1.t b).2.2 = none ↔
+      Admits demanded (refRunOps RuleInfo.feed { t := t0 } ops).1.r.H res b
+        (refRunOps RuleInfo.feed { t := t0 } ops).1.r.ctrls (refRunOps RuleInfo.feed { t := t0 } ops).1.t) := by
+  obtain ⟨_, ⟨latest, hl, rep⟩, ht, _, hpos⟩ := runOps_eq_ref (RepM.init t0 h0) ops
+  obtain ⟨heq, _⟩ := entryG_step rep hl hpos res b
+  have e2 : (entryG (runOps { t := t0 } ops).1.s res (runOps { t := t0 } ops).1.t b).2.2 =
+      (refEntryG RuleInfo.feed (refRunOps RuleInfo.feed { t := t0 } ops).1.r res (runOps { t := t0 } ops).1.t b).2.2 := by rw [heq]
+  rw [e2, ht]
+  have : (refEntryG RuleInfo.feed (refRunOps RuleInfo.feed { t := t0 } ops).1.r res (refRunOps RuleInfo.feed { t := t0 } ops).1.t b).2.2 =
+      (chainG (refOps RuleInfo.feed (refRunOps RuleInfo.feed { t := t0 } ops).1.r.H) res b
+        (refRunOps RuleInfo.feed { t := t0 } ops).1.r.ctrls (refRunOps RuleInfo.feed { t := t0 } ops).1.t).2.2 := rfl
+  rw [this, chainG_none_iff]
+  apply Admits_congr
+  intro c hc
+  have := hreg c hc
+  simpa [RuleInfo.inFinding, demanded] using this
+
+/-- the full statement fails exactly on the known finding (same configuration as `assoc_standalone_witness`, as ops) -/
+theorem admit_iff_executed_full_statement_false : ¬ admit_iff_executed_full_statement := by
+  intro h
+  have h1 := h (1000 * nsPerMs) (by decide)
+    [.load [{ res := 1, thr := .frac 2 1, iv := 3000, ref := some 2 }], .entry 2 1, .entry 2 1, .entry 2 1] 1 1
+  simp only at h1
+  rw [← chainG_none_iff] at h1
+  revert h1
+  decide
+
+/-- the region hypothesis is about the rules in force only: a history whose loads never contain a rule of the region
+    satisfies it (here: one reject rule, one throttling rule, a reload changing the threshold) -/
+example : ∀ c ∈ (refRunOps RuleInfo.feed { t := 1000 * nsPerMs }
+    [.load [{ res := 1, thr := .frac 1024 1, iv := 0, kind := .throttle 500 }, { res := 1, thr := .frac 3 1, iv := 3000 }],
+     .entry 1 1, .clock 1001, .load [{ res := 1, thr := .frac 4 1, iv := 3000 }], .entry 1 1]).1.r.ctrls,
+    c.info.inFinding = false := by decide
+
+/-- **`window_cap_after_reload`, full statement** (what one would like: the plain cap `≤ T` in every window after any
+history). False as soon as a reload lowers a threshold below what a kept window already holds, which the code
+allows by design (`isStatReusable` keeps the window); hence the `_partial` below. -/
+def window_cap_after_reload_statement : Prop :=
+  ∀ (t0 : Nat), 0 < t0 / nsPerMs → ∀ (ops : List Op),
+    ∀ c ∈ (refRunOps RuleInfo.feed { t := t0 } ops).1.r.ctrls, c.info.rule.kind = .reject → c.info.feed = c.info.rule.res → ∀ e,
+      c.info.rule.thr.exceeds (refW c.info.L (histOf (refRunOps RuleInfo.feed { t := t0 } ops).1.r.H c.info.rule.res)
+        (e + c.info.L - c.info.Iv) e) = false
+
+/-- **`window_cap_after_reload_partial`**: after any op history, for every own-traffic reject rule in force and every
+window position `e` of its geometry, the tokens admitted **since that rule came into force** (`born` = length of the
+admitted history at the load that installed or changed it; an unchanged rule keeps its `born`) never exceed its
+threshold. In particular every window that began after the latest change of its rule obeys the plain cap. Missing
+for the full statement: tokens admitted under the *previous* version of the rule are not bounded by the new threshold. -/
+theorem window_cap_after_reload_partial (t0 : Nat) (ops : List Op) :
+    ∀ c ∈ (refRunOps RuleInfo.feed { t := t0 } ops).1.r.ctrls, c.info.rule.kind = .reject → c.info.feed = c.info.rule.res → ∀ e,
+      c.info.rule.thr.exceeds (refW c.info.L
+        (histOf ((refRunOps RuleInfo.feed { t := t0 } ops).1.r.H.drop c.born) c.info.rule.res) (e + c.info.L - c.info.Iv) e) = false := by
+  have h0 : CappedG ({ t := t0 } : RMSt).r (({ t := t0 } : RMSt).t / nsPerMs) :=
+    ⟨by intro a ha; simp at ha, by intro c hc; simp at hc, by intro c hc; simp at hc⟩
+  exact (refRunOps_capped h0 ops).cap
+
+/-- the full cap statement is indeed false: threshold 3 on an independent 3000 ms window, three admissions, then a
+    reload lowering the threshold to 1 (window kept): the window holds 3 > 1 -/
+def wCapOps : List Op :=
+  [.load [{ res := 1, thr := .frac 3 1, iv := 3000 }], .entry 1 1, .entry 1 1, .entry 1 1,
+   .load [{ res := 1, thr := .frac 1 1, iv := 3000 }]]
+
+theorem window_cap_after_reload_statement_false : ¬ window_cap_after_reload_statement := by
+  intro h
+  have h1 := h (1000 * nsPerMs) (by decide) wCapOps
+  have key : ∃ c ∈ (refRunOps RuleInfo.feed { t := 1000 * nsPerMs } wCapOps).1.r.ctrls,
+      c.info.rule.kind = .reject ∧ c.info.feed = c.info.rule.res ∧
+      c.info.rule.thr.exceeds (refW c.info.L (histOf (refRunOps RuleInfo.feed { t := 1000 * nsPerMs } wCapOps).1.r.H c.info.rule.res)
+        (1000 + c.info.L - c.info.Iv) 1000) = true := by decide
+  obtain ⟨c, hc, hk, hf, hx⟩ := key
+  have := h1 c hc hk hf 1000
+  rw [hx] at this
+  cases this
 
 /-! ## the known finding `assoc-standalone-own-traffic` -/
 
